@@ -124,6 +124,7 @@ class Ev:
         self.unrolling = set()
         self.unroll_bounds = {}
         self.unrolled = []
+        self.accelerated = []
         self.unroll_work = 0
         self.frames = {}
         self.abstract = {}       # local fn path -> name: treat calls as uninterpreted pure functions
@@ -264,6 +265,10 @@ class Ev:
             W2 = self.widen(fr, h, W, backs)
             if W2 is None:
                 # fixpoint reached with header state W
+                acc = self.accelerate_search(fr, st, W, backs, outs)
+                if acc is not None:
+                    self.accelerated.append({'fn': fr.fn['path'], 'header': h, 'idiom': 'first-occurrence search'})
+                    return acc
                 for bstate in backs:
                     self.extra_obls.extend(bstate.obls[len(W.obls):])
                 self.loops.append({'fn': fr.fn['path'], 'header': h, 'fid': fr.fid, 'entry': st, 'widened': W,
@@ -272,6 +277,116 @@ class Ev:
             del self.extra_obls[n_extra:]
             W = W2
         raise Unprovable("loop at %s bb%d did not stabilise" % (fr.fn['path'], h))
+
+    def accelerate_search(self, fr, entry, W, backs, outs):
+        """Loop acceleration for the first-occurrence search idiom: a loop over a slice iterator (optionally enumerated) whose every
+        iteration either finds `item == c` for one constant c and leaves the loop, or advances the iterator and changes nothing else.
+        Its exits are then closed forms over has_byte / first_byte of the sequence at loop entry (the vocabulary of slice::position and
+        str::find): -> the outcomes with the loop-carried terms replaced, or None when the loop is not of that shape."""
+        mus = {}
+
+        def pair(e, w):
+            if w[0] == 'mu':
+                mus[w] = e
+            elif w[0] == 'adt' and e[0] == 'adt' and len(w[4]) == len(e[4]):
+                for x, y in zip(e[4], w[4]):
+                    pair(x, y)
+            elif w[0] == 'tuple' and e[0] == 'tuple' and len(w[1]) == len(e[1]):
+                for x, y in zip(e[1], w[1]):
+                    pair(x, y)
+        iter_locs = []
+        for loc, w in W.store.items():
+            e = entry.store.get(loc)
+            if e is None or e == w:
+                continue
+            pair(e, w)
+            iter_locs.append(loc)
+        if len(iter_locs) != 1 or not mus:
+            return None
+        itw = W.store[iter_locs[0]]
+        mu_s = mu_i = None
+        for t in T.subterms(itw):
+            if t[0] == 'adt' and t[1] == '$SliceIter' and T.adt_field(t, 'seq')[0] == 'mu':
+                mu_s = T.adt_field(t, 'seq')
+            if t[0] == 'adt' and t[1] == '$Enumerate' and T.adt_field(t, 'idx')[0] == 'mu':
+                mu_i = T.adt_field(t, 'idx')
+        if mu_s is None or set(mus) - {mu_s, mu_i}:
+            return None
+        seq0 = mus[mu_s]
+        idx0 = mus.get(mu_i)
+        n0 = T.mk_len(seq0)
+        has = T.ge0(T.sub(T.mk_len(mu_s), T.I(1)))
+        item = T.mk_at(mu_s, T.I(0))
+        consts = set()
+        base = len(W.pc)
+
+        def p_const(atom):
+            if atom[0] != 'eq0':
+                return None
+            c0, m = T.to_lin(atom[1])
+            if set(m) == {item} and m[item] in (1, -1) and (-c0) % m[item] == 0:
+                return (-c0) // m[item]
+            return None
+        if not backs:
+            return None
+        for b in backs:
+            new = [a for a in b.pc[base:] if a != has]
+            if has not in b.pc[base:] or len(new) != 1 or new[0][0] != 'not' or p_const(new[0][1]) is None:
+                return None
+            consts.add(p_const(new[0][1]))
+            for loc, w in W.store.items():
+                bv = b.store.get(loc)
+                if bv is None or loc[0] != fr.fid:
+                    continue
+                if loc == iter_locs[0]:
+                    want = T.rebuild(w, {mu_s: T.mk_slice(mu_s, T.I(1), T.mk_len(mu_s)), **({mu_i: T.add(mu_i, T.I(1))} if mu_i is not None else {})})
+                    if bv != want:
+                        return None
+                elif bv != w and fr.fn['locals'][loc[1]]['name']:
+                    return None        # a named local other than the iterator changes from one iteration to the next
+        if len(consts) != 1:
+            return None
+        c = T.I(next(iter(consts)))
+        p = T.eq0(T.sub(item, c))
+        hb = ('call', 'has_byte', (seq0, c))
+        F = ('call', 'first_byte', (seq0, c))
+        res = []
+        for s_out, ret in outs:
+            new = s_out.pc[base:]
+            if T.bnot(has) in new:
+                sub_ = {mu_s: T.mk_slice(seq0, n0, n0)}
+                if mu_i is not None:
+                    sub_[mu_i] = T.add(idx0, n0)
+                fact = T.bnot(hb)
+            elif has in new and p in new:
+                sub_ = {mu_s: T.mk_slice(seq0, F, n0)}
+                if mu_i is not None:
+                    sub_[mu_i] = T.add(idx0, F)
+                fact = hb
+            else:
+                return None
+            s2 = s_out.copy()
+            pc = list(s2.pc[:base]) + [fact]
+            dead = False
+            for a in s2.pc[base:]:
+                a2 = T.rebuild(a, sub_) if any(T.mentions(a, mu) for mu in sub_) else a
+                if a2 == T.FALSE:
+                    dead = True
+                    break
+                if a2 != T.TRUE and a2 not in pc:
+                    pc.append(a2)
+            if dead or not solver.sat(pc):
+                continue
+            s2.pc = pc
+            for loc, v in list(s2.store.items()):
+                if any(T.mentions(v, mu) for mu in sub_):
+                    s2.store[loc] = T.rebuild(v, sub_)
+            ret2 = T.rebuild(ret, sub_) if any(T.mentions(ret, mu) for mu in sub_) else ret
+            for ob in s2.obls[len(W.obls):]:
+                ob['cond'] = T.rebuild(ob['cond'], sub_)
+                ob['pc'] = list(pc)
+            res.append((s2, ret2))
+        return res
 
     def widen(self, fr, h, W, backs):
         """-> new header state, or None if W already covers all back-edge states"""
